@@ -367,6 +367,16 @@ theorem saveScript_fail_shape (chunks : List (List Byte)) (j : Nat) (h : (saveSc
           · rename_i h0 h1 h2 h3 h4
             simp [h0, h1, h2, h3, h4] at h
 
+/-- atomicity at a finer grain than the stdio calls: a crash in the middle of ANY call — a block of a variable line
+    half written, the stdio buffer half flushed — still leaves the save file complete old or complete new, because only
+    the temporary is ever written to -/
+theorem save_atomic_partial (chunks : List (List Byte)) (old : Option (List Byte)) (k : Nat) (c : Call)
+    (d' : List Byte) :
+    (((FS.mk old none).run ((saveScript chunks none).1.take k)).partialStep c d').file = old ∨
+    (((FS.mk old none).run ((saveScript chunks none).1.take k)).partialStep c d').file = some chunks.flatten := by
+  have h := save_atomic chunks old k
+  cases c <;> simpa [FS.partialStep] using h
+
 /-- a save that reports failure leaves no temporary file behind, on every failure path -/
 theorem save_failure_leaves_no_tmp (chunks : List (List Byte)) (old : Option (List Byte)) (j : Nat) :
     (saveScript chunks (some j)).2 = 0 → ((FS.mk old none).run (saveScript chunks (some j)).1).tmp = none := by
